@@ -128,7 +128,9 @@ def tok_model_checking(ctx):
                             ("aab", "bba", "abx", 7 if q else 10), ("%%", "%%", "%a ", 7 if q else 10)]:
         ctx.mc("tok[%s|%s]" % (ds, de), "MC_Tok", {"DS": Chars(ds), "DE": Chars(de), "Alphabet": Chars(al), "N": n},
                ["ImplRefines", "KmpIsRef"])
-    for (ds, de) in PAIRS:
+    # ... and for every spelling used by the respelling and command-line jobs (C18, C20)
+    more = [p for p in SPELLINGS + CLI_SPELLINGS if p not in PAIRS]
+    for (ds, de) in PAIRS + more:
         al = "".join(dict.fromkeys(ds + de + "x"))
         ctx.mc("prod[%s|%s]" % (ds, de), "Prod_Tok", {"DS": Chars(ds), "DE": Chars(de), "Alphabet": Chars(al)},
                ["Agree"], view="View", workers=1)
@@ -626,7 +628,7 @@ def check_C04(ctx):
     junk_jobs(ctx, ["Inv_C04"], [{"op": "clean"}], None)
     pump_job(ctx, ["Inv_C04"], [{"op": "clean"}], ["open", "stray", "nest-p", "pending", "lines", "mb"], [100, 257] if ctx.quick else [100, 257, 300])
     # the command on large sources without a ready element (the marker of the core is not among the targets)
-    cli_big_job(ctx, invariants=("Inv_C04",), targets=("zz",), ks=[1800, 3500], nunits=2)    # the reference view of the whole source is evaluated: smaller than in C20
+    cli_big_job(ctx, invariants=("Inv_C04",), targets=("zz",), ks=[1800, 2800], nunits=2)    # the reference view of the whole source is evaluated: smaller than in C20
     repo_docs_job(ctx, ["Inv_C04"], [{"op": "clean"}])
 
 
@@ -780,6 +782,9 @@ def check_C05(ctx):
             "OffMins": TlaSet([-720, -210, 0, 345, 540, 840] if q else list(range(-720, 841, 45))),
             "Samples": [Chars(x) for x in CANON_TOS + BAD_TOS + BAD_OFFS + ["+09:00", "-0330", "+14:00"]]},
            ["Successor", "Anchors", "Offsets", "Classes"])
+    # every day of every year a canonical `to` can name (0001 .. 9999): the day number of the next day is the next number
+    ctx.mc("eval-dates-all-years", "MC_Eval", {"Years": TlaSet(list(range(1, 10000))), "OffMins": TlaSet([0]), "Samples": []},
+           ["Successor", "Anchors"], timeout=3600)
     step = 60 if q else 15
     offs = [m for m in range(-720, 841, step)]
     if q:
